@@ -23,7 +23,8 @@ IdChars == IdStart \cup Digits
 KeywordChars == Lower \cup {"_"}
 
 \* the mnemonics the scanner knows (keys of the opcode table) and those with an implied form
-CONSTANTS TableMnemonics, NakedMnemonics, Keywords
+CONSTANTS TableMnemonics, NakedMnemonics, Keywords,
+          SizeEatsNewline    \* TRUE: the design before the fix of `lda.` at a line end (a spec mutant MC_Scanner refutes)
 
 Len0(s) == Len(s.inp)
 Peek(s, k) == IF s.pos + k < Len0(s) THEN s.inp[s.pos + k + 1] ELSE Eof
@@ -136,7 +137,8 @@ LexOpcodeSize(s0) ==
     LET s1 == Ignore(s0) IN
     IF Peek(s1, 0) \in {"b", "B", "w", "W", "l", "L"}
     THEN LexOperand(IgnoreRun(Emit(NextC(s1), "OPCODE_SIZE"), {" "}))
-    ELSE Raise(NextC(s1), "Invalid Size Specifier")
+    \* the character after the dot is consumed, except a line end: the error belongs to the opcode's line
+    ELSE Raise(IF Peek(s1, 0) = "\n" /\ ~SizeEatsNewline THEN s1 ELSE NextC(s1), "Invalid Size Specifier")
 
 LexOpcode(s0) ==
     LET cand == LowerText(Text(s0))
@@ -214,4 +216,7 @@ LineStart(inp, a) == LET N == {j \in 1..a : inp[j] = "\n"} IN IF N = {} THEN 0 E
 PositionLaw(s) == \A j \in 1..Len(s.toks) :
     LET t == s.toks[j] IN
     (t.ty \notin {"COMMENT", "EOF"}) => (t.line = NewlinesBefore(s.inp, t.a) /\ t.col = t.a - LineStart(s.inp, t.a))
+\* C17: the lexical errors of the statement list are reported at the line and column where the offending token starts
+ErrorLaw(s) == (s.st = "err" /\ s.emsg \in {"Invalid Size Specifier", "Invalid index", "Unterminated String"}) =>
+               (s.eline = NewlinesBefore(s.inp, s.start) /\ s.ecol = s.start - LineStart(s.inp, s.start))
 =============================================================================
